@@ -2,7 +2,7 @@
 L3 pointer closure per allocation site, L4 extended-class agreement, L5 source immutability."""
 import ast
 
-from ..core import AnalysisError, norm, short, walk_local
+from ..core import parent_chain, reaching_assign, AnalysisError, norm, short, walk_local
 from ..kinds import FIELD_TYPES, SCALAR_FIELDS, CONCRETE, kinds_of, field_class
 from ..effects import root_and_depth
 from ..typestate import classify_set
@@ -32,12 +32,16 @@ REQUIRED = {
 
 
 def _clone_family(P):
-    fam = {}
+    """the methods of the clone protocol (clone, _clone, _clone_rip…: instance methods), each read with its private helpers in place —
+    a static / module-level helper that merely carries `_clone` in its name (`_clone_members(members, memo)`) is such a helper, not a
+    protocol method"""
+    proto = {}
     for cname, ci in P.ir_classes.items():
         for m in ci.methods.values():
-            if m.name == "clone" or m.name.startswith("_clone"):
-                fam[m.key] = m
-    return fam
+            if (m.name == "clone" or m.name.startswith("_clone")) and m.role == "method" and set(m.params) <= {"self", "memo"}:
+                proto[m.key] = m
+    names = {m.name for m in proto.values()}
+    return {k: inlined_view(P, m, keep=names) for k, m in proto.items()}
 
 
 def _copy_var(f):
@@ -67,10 +71,11 @@ class CloneModel:
         self.P = ctx.P
         self.M = ctx.model
         self.fam = _clone_family(self.P)
+        self._ev = {}
         self.calls = {}      # func key -> [(target FuncInfo, recv expr, call event)]
         self.callers = {}    # target key -> [(caller FuncInfo, recv expr, ev)]
         for k, f in self.fam.items():
-            fe = self.M.events(f)
+            fe = self.ev(f)
             lst = []
             for evs in fe.by_node.values():
                 for ev in evs:
@@ -80,6 +85,17 @@ class CloneModel:
                                 lst.append((t, ev.recv, ev))
                                 self.callers.setdefault(t.key, []).append((f, ev.recv, ev))
             self.calls[k] = lst
+
+    def ev(self, f):
+        """events of a family member (built on the view when private helpers were spliced in)"""
+        raw = self.P.func(f.module.relpath, f.qualname) if hasattr(self.P, "func") else None
+        if raw is not None and raw.node is f.node:
+            return self.M.events(f)
+        fe = self._ev.get(f.key)
+        if fe is None or fe.func is not f:
+            from ..effects import FuncEvents
+            fe = self._ev[f.key] = FuncEvents(self.P, f, self.M)
+        return fe
 
     def reachable(self, entry):
         seen = {entry.key}
@@ -99,7 +115,7 @@ class CloneModel:
         out = []
         if c is None:
             return out
-        fe = self.M.events(f)
+        fe = self.ev(f)
         for evs in fe.by_node.values():
             for ev in evs:
                 if ev.kind != "write" or norm(ev.recv) != c:
@@ -125,7 +141,7 @@ class CloneModel:
         """[(class A, function g, call node, home)] home = ('field', G, F) | ('local', g.key, var)"""
         sites = []
         for k, g in self.fam.items():
-            fe = self.M.events(g)
+            fe = self.ev(g)
             cvar = _copy_var(g)
             for evs in fe.by_node.values():
                 for ev in evs:
@@ -166,6 +182,13 @@ class CloneModel:
                                         homes.append(("field", g.cls.name, tg.value.attr))
                                     elif isinstance(tg, ast.Attribute):
                                         homes.append(("field", g.cls.name, tg.attr))
+                                # … or collected in a local list / set that is installed as a field: `port = p._clone(memo); …; new_ports.append(port)`
+                                if isinstance(n, ast.Call) and isinstance(n.func, ast.Attribute) and n.func.attr in ("append", "add") and isinstance(n.func.value, ast.Name) \
+                                        and len(n.args) == 1 and isinstance(n.args[0], ast.Name) and n.args[0].id == local:
+                                    lst = n.func.value.id
+                                    for n2 in walk_local(g.node):
+                                        if isinstance(n2, ast.Assign) and isinstance(n2.value, ast.Name) and n2.value.id == lst and isinstance(n2.targets[0], ast.Attribute):
+                                            homes.append(("field", g.cls.name, n2.targets[0].attr))
                         elif isinstance(par, ast.Assign):
                             homes.append(("entry", g.key, norm(par.targets[0])))
                         sites.append((A, g, call, homes))
@@ -176,7 +199,7 @@ class CloneModel:
         """[(function, cls, field, kind, recv expr, stmt)] in clone-family functions"""
         out = []
         for k, f in self.fam.items():
-            fe = self.M.events(f)
+            fe = self.ev(f)
             cvar = _copy_var(f)
             for evs in fe.by_node.values():
                 for ev in evs:
@@ -186,6 +209,11 @@ class CloneModel:
                     kind = None
                     if ev.op == "set":
                         v = ev.value
+                        if isinstance(v, ast.Name):
+                            # a local that only names a memo lookup: `new_ip = memo[ip]; op._inner_pin = new_ip`
+                            d_ = reaching_assign(ev.stmt, v.id) if ev.stmt is not None else None
+                            if d_ is not None and isinstance(d_, ast.Assign) and len(d_.targets) == 1 and isinstance(d_.targets[0], ast.Name) and _mentions_memo(d_.value):
+                                v = d_.value
                         if isinstance(v, ast.Constant) and v.value is None:
                             kind = "reset"
                         elif v is not None and _mentions_memo(v):
@@ -260,6 +288,35 @@ class CloneModel:
                     it = lp.iter
                     if isinstance(it, ast.Call) and isinstance(it.func, ast.Attribute) and it.func.attr in ("values", "items", "keys"):
                         it = it.func.value
+                    if isinstance(it, ast.Name):
+                        # a local list that is (also) installed as a container of the copy / of self: `c._ports = new_ports … for port in new_ports:`
+                        inst_ = [a_ for a_ in walk_local(g.node) if isinstance(a_, ast.Assign) and isinstance(a_.value, ast.Name) and a_.value.id == it.id
+                                 and len(a_.targets) == 1 and isinstance(a_.targets[0], ast.Attribute) and isinstance(a_.targets[0].value, ast.Name)
+                                 and a_.targets[0].value.id in ("self", _copy_var(g) or "")]
+                        rebinds = [a_ for a_ in walk_local(g.node) if isinstance(a_, ast.Assign) and any(isinstance(t_, ast.Name) and t_.id == it.id for t_ in a_.targets)]
+                        if len(inst_) == 1 and len(rebinds) == 1:
+                            it = inst_[0].targets[0]
+                    if isinstance(it, ast.Call) and isinstance(it.func, ast.Attribute) and norm(it.func.value) == "self" and not it.args and not it.keywords \
+                            and g.cls is not None:
+                        # for item in self._items(): an accessor each subclass answers with one of its own containers (`return self._pins`)
+                        got = set()
+                        for cname_, ci_ in self.P.ir_classes.items():
+                            if not any(b.name == g.cls.name for b in self.P.ir_mro(cname_)):
+                                continue
+                            acc = ci_.methods.get(it.func.attr)
+                            if acc is None:
+                                continue
+                            body_ = [x for x in acc.node.body if not (isinstance(x, ast.Expr) and isinstance(x.value, ast.Constant))]
+                            if len(body_) == 1 and isinstance(body_[0], ast.Return) and isinstance(body_[0].value, ast.Attribute) and norm(body_[0].value.value) == "self":
+                                a_ = body_[0].value.attr
+                                got.add(("field", cname_, a_ if a_.startswith("_") else "_" + a_))
+                            elif len(body_) == 1 and isinstance(body_[0], ast.Raise):
+                                continue
+                            else:
+                                got = None
+                                break
+                        if got:
+                            return got
                     if isinstance(it, ast.Attribute):
                         base = it.value
                         fld = it.attr if it.attr.startswith("_") else "_" + it.attr
@@ -269,7 +326,7 @@ class CloneModel:
                                 bt = g.cls.name
                             else:
                                 # nested loop: base is itself a loop variable over a container of known element class
-                                fe = self.M.events(g)
+                                fe = self.ev(g)
                                 for cn in fe.cfg.nodes:
                                     if cn.kind == "next" and cn.ast is lp and cn.id in fe.ty.state:
                                         ks = kinds_of(fe.ty.type_of(base, fe.ty.env_at(cn)))
@@ -321,6 +378,7 @@ def _l1_l2_l4(ctx, R, CM):
         f = ci.methods.get("_clone")
         if f is None:
             raise AnalysisError("anchor vanished: %s._clone" % cname)
+        f = CM.fam.get(f.key, f)  # read with private helpers (own or inherited) in place
         n += 1
         c = _copy_var(f)
         if c is None:
@@ -525,17 +583,33 @@ def _l3(ctx, R, CM):
         def memoish(e):
             return any(isinstance(x, ast.Name) and x.id in memoish_names for x in ast.walk(e))
 
+        # the key under which clones are remembered: the object itself, or id(object) when the set was built as {id(c) for c in memo.values()}
+        keyed = {}
+        for n in walk_local(f.node):
+            if isinstance(n, ast.Assign) and isinstance(n.targets[0], ast.Name) and isinstance(n.value, (ast.SetComp, ast.ListComp, ast.GeneratorExp)) \
+                    and len(n.value.generators) == 1 and memoish(n.value.generators[0].iter) and isinstance(n.value.generators[0].target, ast.Name):
+                e_, v_ = n.value.elt, n.value.generators[0].target.id
+                if isinstance(e_, ast.Call) and isinstance(e_.func, ast.Name) and e_.func.id == "id" and len(e_.args) == 1 and norm(e_.args[0]) == v_:
+                    keyed[n.targets[0].id] = "id"
+
+        def same_member(left, var, container):
+            """`left` is the candidate `var` under the key the container of clones uses"""
+            k_ = keyed.get(container.id) if isinstance(container, ast.Name) else None
+            if k_ == "id":
+                return isinstance(left, ast.Call) and isinstance(left.func, ast.Name) and left.func.id == "id" and len(left.args) == 1 and norm(left.args[0]) == var
+            return norm(left) == var
+
         ok = False
         for n in walk_local(f.node):
             if isinstance(n, ast.If) and isinstance(n.test, ast.Compare) and len(n.test.ops) == 1 and isinstance(n.test.ops[0], ast.In) \
                     and memoish(n.test.comparators[0]):
                 adds = [c for s_ in n.body for c in ast.walk(s_) if isinstance(c, ast.Call) and isinstance(c.func, ast.Attribute) and c.func.attr == "add"]
-                if adds and norm(adds[0].args[0]) == norm(n.test.left):
+                if adds and same_member(n.test.left, norm(adds[0].args[0]), n.test.comparators[0]):
                     ok = True
             if isinstance(n, (ast.SetComp, ast.GeneratorExp, ast.ListComp)) and len(n.generators) == 1:
                 g = n.generators[0]
                 if norm(n.elt) == norm(g.target) and any(isinstance(c, ast.Compare) and len(c.ops) == 1 and isinstance(c.ops[0], ast.In)
-                                                       and norm(c.left) == norm(g.target) and memoish(c.comparators[0]) for c in g.ifs):
+                                                       and memoish(c.comparators[0]) and same_member(c.left, norm(g.target), c.comparators[0]) for c in g.ifs):
                     ok = True
             # set algebra: <definition>._references & <set of clones>   (either order, operator or method)
             sides = None
@@ -621,6 +695,34 @@ def _closure(c):
 _OWNS_CLOSURE = {c: _closure(c) for c in _OWNS}
 
 
+def _l3c(ctx, R, CM):
+    """a clean-up write that closes a clone-family function (a statement of its body proper: `self._references = set()` at the end of
+    Definition._clone_rip) runs on every way through the function: no `return` before it"""
+    R.rule("L3c", "no early exit before a clean-up write: a reset / redirect that is a statement of the function body is not skipped by a `return` above it")
+    n = 0
+    for f, cls, field, kind, recv, stmt in CM.fixers():
+        if stmt is None or not any(stmt is s_ for s_ in f.node.body):
+            continue
+        n += 1
+        idx = next(i for i, s_ in enumerate(f.node.body) if s_ is stmt)
+        early = [r for s_ in f.node.body[:idx] for r in ast.walk(s_) if isinstance(r, ast.Return)]
+        # leaving because there is nothing to clean up is not skipping the clean-up: `if self._wire is None: return`
+        fld_names = {field, field.lstrip("_")}
+
+        def about_the_field(r):
+            return any(isinstance(p_, ast.If) and any(isinstance(x, ast.Attribute) and x.attr in fld_names for x in ast.walk(p_.test)) for p_ in parent_chain(r))
+        early = [r for r in early if not about_the_field(r)]
+        if early:
+            R.bad("L3c", "%s|%s.%s skipped" % (f.key, cls, field), f.loc(early[0]),
+                  "%s can return at `%s` before `%s` runs: on that path the copy keeps the source's %s.%s (for a definition without children: the "
+                  "original's reference set, so instances of the original count as instances of the copy)"
+                  % (f.qualname, short(getattr(early[0], "_parent", early[0]), 50), short(stmt, 50), cls, field))
+        else:
+            R.ok("L3c", "%s: `%s` is not skipped" % (f.qualname, short(stmt, 40)), f.loc(stmt))
+    R.count("closing clean-up writes (L3c)", n)
+    R.floor("closing clean-up writes (L3c)", 20)
+
+
 def _l5(ctx, R, CM):
     R.rule("L5", "source immutability: _clone writes nothing reachable from self; over a whole public clone() the only writes to "
                  "objects that are not clones are X._references.add(<clone>), the documented bookkeeping")
@@ -700,7 +802,7 @@ def _l5(ctx, R, CM):
           "matrix — for every public entry, every allocation site of cloned objects reachable from it and every pointer field copied "
           "through by that class's _clone, a redirect-through-memo (or cut, as documented for that entry) of that field is applied to the "
           "objects of that site (receiver/loop/call-site resolution of which objects each fixing write covers); L3b reference sets of "
-          "cloned definitions are pruned by membership in memo.values(); L4 copies are built through the extended classes of spydrnet.ir; "
+          "cloned definitions are pruned by membership in memo.values(); L3c a clean-up write that closes a clone-family function is not skipped by a return above it (unless that return is taken because the field is empty); L4 copies are built through the extended classes of spydrnet.ir; "
           "L5 _clone never writes the source, the only writes leaving the clone are reference-set insertions, and every write of a clone-family method lands on a kind of object its class owns (kind inference of the receiver: the inner pins that key an instance's pin map belong to the definition); L7 no list / set / dict slot of the copy is the source's own container. Decides closure and "
           "independence structurally; does not decide structural identity of names/order, nor query equivalence.",
           ["REQUIRED (per clone entry: remap / reset / keep for each copied-through field) is the reviewed transcription of the clone "
@@ -711,5 +813,6 @@ def check_c07(ctx, R):
     R.floor("clone-family functions", 30)
     _l1_l2_l4(ctx, R, CM)
     _l3(ctx, R, CM)
+    _l3c(ctx, R, CM)
     _l6(ctx, R, CM)
     _l5(ctx, R, CM)
